@@ -4,6 +4,7 @@ package main
 // function under contract is executed symbolically.
 
 import (
+	"regexp"
 	"fmt"
 	"go/token"
 	"go/types"
@@ -18,6 +19,7 @@ type Assume struct {
 	t       Term
 	why     string
 	tag     string // definition that a discharged helper lemma may replace
+	groundAx bool // ground instance of a heap axiom: only needed once something has been allocated
 	heapAx  bool // heap well-formedness axiom: only needed once something has been allocated
 }
 
@@ -30,6 +32,7 @@ type Obligation struct {
 	declPos  int
 	asmPos   int
 	allocs   int
+	quantHeap bool
 	Pos      token.Position
 	Note     string
 	DropTag  string        // helper: the definition its lemma replaces in users
@@ -75,6 +78,10 @@ type Ctx struct {
 	epochs     []epochInfo
 	epochCache map[string]Term
 	defCache   map[string]string
+	baseArrays map[string][]baseArr
+	refStruct  map[string]Term // named reference -> its structural (mkref ...) form
+	inQuant    int
+	needQuantHeap bool
 }
 
 const birthBase = 1000000
@@ -83,7 +90,7 @@ const globalBase = 1000
 func NewCtx(w *World, intMode bool) *Ctx {
 	c := &Ctx{W: w, intMode: intMode, strLits: map[string]Term{}, memSort: map[string]string{},
 		memInit: map[string]Term{}, globals: map[*ssa.Global]Term{}, assumed: map[string]bool{},
-		ufDecl: map[string]bool{}, sites: map[string]int{}, depthCap: 8, epochCache: map[string]Term{}, defCache: map[string]string{}}
+		ufDecl: map[string]bool{}, sites: map[string]int{}, depthCap: 8, epochCache: map[string]Term{}, defCache: map[string]string{}, baseArrays: map[string][]baseArr{}, refStruct: map[string]Term{}}
 	if intMode {
 		c.idxSort = SInt
 	} else {
@@ -124,6 +131,11 @@ func (c *Ctx) Def(prefix string, t Term) Term {
 	}
 	n := c.fresh(prefix)
 	c.defCache[key] = n
+	if t.Sort == SRef {
+		if _, _, ok := splitRef(t); ok {
+			c.refStruct[n] = t
+		}
+	}
 	c.decls = append(c.decls, fmt.Sprintf("(define-fun %s () %s %s)", n, t.Sort, t.S))
 	return Term{S: n, Sort: t.Sort}
 }
@@ -138,6 +150,9 @@ func (c *Ctx) Fresh(prefix, sortName string) Term {
 // UF declares (once) an uninterpreted function and returns an application.
 func (c *Ctx) UF(name string, ret string, args ...Term) Term {
 	name = sanitize(name)
+	if !strings.HasPrefix(name, "G_") && !strings.HasPrefix(name, "isa.") {
+		name = "uf." + name // keep clear of theory symbols such as str.len
+	}
 	if !c.ufDecl[name] {
 		c.ufDecl[name] = true
 		var as []string
@@ -170,7 +185,7 @@ func (c *Ctx) siteName(kind string) string {
 func (c *Ctx) Oblige(kind, label string, cond, goal Term, pos token.Position, note string) *Obligation {
 	g := Implies(cond, goal)
 	o := &Obligation{Name: c.fn + "#" + kind + "." + label, Kind: kind, Func: c.fn, Property: c.property,
-		Goal: g, declPos: len(c.decls), asmPos: len(c.assumes), allocs: c.nextObj, Pos: pos, Note: note, Ctx: c}
+		Goal: g, declPos: len(c.decls), asmPos: len(c.assumes), allocs: c.nextObj, quantHeap: c.needQuantHeap, Pos: pos, Note: note, Ctx: c}
 	c.obls = append(c.obls, o)
 	return o
 }
@@ -178,7 +193,7 @@ func (c *Ctx) Oblige(kind, label string, cond, goal Term, pos token.Position, no
 // Cover registers a satisfiability (non-vacuity) query.
 func (c *Ctx) Cover(label string, cond Term, pos token.Position) *Obligation {
 	o := &Obligation{Name: c.fn + "#cover." + label, Kind: "cover", Func: c.fn, Property: c.property,
-		Goal: cond, declPos: len(c.decls), asmPos: len(c.assumes), allocs: c.nextObj, Pos: pos, WantSat: true, Ctx: c}
+		Goal: cond, declPos: len(c.decls), asmPos: len(c.assumes), allocs: c.nextObj, quantHeap: c.needQuantHeap, Pos: pos, WantSat: true, Ctx: c}
 	c.obls = append(c.obls, o)
 	return o
 }
@@ -220,7 +235,10 @@ func (o *Obligation) QueryF(withModel bool, dropQuant bool) string {
 		if a.tag != "" && drop[a.tag] {
 			continue
 		}
-		if a.heapAx && o.allocs == 0 {
+		if a.heapAx && (o.allocs == 0 || !o.quantHeap) {
+			continue
+		}
+		if a.groundAx && o.allocs == 0 {
 			continue
 		}
 		if dropQuant && (strings.Contains(a.t.S, "(forall ") || strings.Contains(a.t.S, "(exists ")) {
@@ -333,6 +351,35 @@ func (c *Ctx) scalarSort(t types.Type) string {
 	return ""
 }
 
+var reByte = regexp.MustCompile(`\bbyte\b`)
+var reRune = regexp.MustCompile(`\brune\b`)
+
+// typeKey names the memory of a cell type. byte/uint8 and rune/int32 are the
+// same type in Go and must share a memory.
 func typeKey(t types.Type) string {
-	return sanitize(types.TypeString(t, func(p *types.Package) string { return p.Name() }))
+	s := types.TypeString(t, func(p *types.Package) string { return p.Name() })
+	s = reByte.ReplaceAllString(s, "uint8")
+	s = reRune.ReplaceAllString(s, "int32")
+	return sanitize(s)
+}
+
+// feasible asks the solvers whether a path condition is satisfiable under the
+// assumptions made so far. Used only to prune dead code before inlining large
+// callees; "unknown" counts as feasible.
+func (c *Ctx) feasible(reach Term) bool {
+	if reach.IsFalse() {
+		return false
+	}
+	if reach.IsTrue() {
+		return true
+	}
+	o := &Obligation{Name: c.fn + "#feasible", Goal: reach, declPos: len(c.decls), asmPos: len(c.assumes), allocs: c.nextObj, WantSat: true, Ctx: c}
+	q := o.QueryF(false, true)
+	v := decide(q, 2, false)
+	c.W.stats.feasQueries++
+	if v.Answer == "unsat" {
+		c.W.stats.pruned++
+		return false
+	}
+	return true
 }
